@@ -19,6 +19,10 @@ type Index struct {
 	CmdEmbeddings [][]float32          // command index -> 100d vector
 }
 
+// maxPreallocEntries caps how many entries are pre-allocated on the word of a
+// file header; tables grow beyond it only as records are really read.
+const maxPreallocEntries = 1 << 16
+
 // LoadWordVectors loads word vectors from binary file.
 // Format: [vocab_size:u32] then per word: [word_len:u16][word:bytes][vector:dim*f32]
 func LoadWordVectors(filepath string) (*Index, error) {
@@ -37,8 +41,10 @@ func LoadWordVectors(filepath string) (*Index, error) {
 	}
 
 	idx := &Index{
-		Dimension:   100, // GloVe 100d
-		WordVectors: make(map[string][]float32, vocabSize),
+		Dimension: 100, // GloVe 100d
+		// The count comes from the file: use it only as a bounded size hint, so a
+		// damaged header cannot make us allocate more than the file can fill.
+		WordVectors: make(map[string][]float32, min(vocabSize, maxPreallocEntries)),
 	}
 
 	// Read each word and vector
@@ -93,14 +99,16 @@ func (idx *Index) LoadCommandEmbeddings(filepath string) error {
 	}
 
 	// Read embeddings
-	idx.CmdEmbeddings = make([][]float32, numCommands)
+	// Grow as records are actually read (see maxPreallocEntries)
+	embeddings := make([][]float32, 0, min(numCommands, maxPreallocEntries))
 	for i := uint32(0); i < numCommands; i++ {
 		embedding := make([]float32, dimension)
 		if err := binary.Read(reader, binary.LittleEndian, embedding); err != nil {
 			return fmt.Errorf("failed to read embedding at %d: %w", i, err)
 		}
-		idx.CmdEmbeddings[i] = embedding
+		embeddings = append(embeddings, embedding)
 	}
+	idx.CmdEmbeddings = embeddings
 
 	return nil
 }
